@@ -51,7 +51,9 @@ class DominanceInfo:
                 self._dominance[b] = {b} | (
                     set[Block].intersection(*(self._dominance[p] for p in pred[b]))
                     if pred[b]
-                    else set()
+                    # Blocks without predecessors are unreachable, they must not
+                    # remove dominators from the blocks they branch to
+                    else set(region.blocks)
                 )
                 if old != self._dominance[b]:
                     changed = True
